@@ -7,7 +7,8 @@ from ..probes import InjectedFault
 from ..core import jsonable
 
 SHARDS = {"quick": 3, "thorough": 16}
-N_CFG = {"quick": 500, "thorough": 6000}     # per shard
+TIMEOUT = {"quick": 1800, "thorough": 7200}
+N_CFG = {"quick": 500, "thorough": 2500}     # per shard
 
 
 def check_identity(run, sc, where, replay):
@@ -98,7 +99,7 @@ def main(run):
         else:
             cfg = gen_cfg(rnd, "sage", exact, allow_discontinuous=True)
             if i in (40, 41) or (run.tier == "thorough" and i % 1500 == 42):      # thousands of calls on one explainer (exact and float)
-                make_long(cfg, rnd, 4200 if i == 41 else rnd.choice([1100, 2100, 5000 if run.tier == "thorough" else 1300]))
+                make_long(cfg, rnd, 4200 if i == 41 else rnd.choice([1100, 1300, (5000 if run.tier == "thorough" else 2100) if not cfg["exact"] else 1200]))
                 run.count("long-stream-configs")
             if i in (50, 51, 53, 56) or (run.tier == "thorough" and i % 300 == 50):      # model that becomes informative after ~40 observations
                 make_phase(cfg, rnd, dyn=(i == 51))
